@@ -23,12 +23,14 @@
   Engine `qlz` also runs the C implementation (in a child process): round trips C→C, C→Go, Go→C, Go→Go exact on every
   generated value (classes incl. boundary-distance markers); arbitrary bytes into CDecompressSafe: KNOWN FINDINGS
   (the C decoder is built without QLZ_MEMORY_SAFE: crashes / reads past its input).
-  Partial: the C code is compared, not modelled; the level-1 round trip (Go only, unused by the server) is stated
-  (`QlzRT.roundtrip1_statement`) and exercised, not proved.
+  Level 1 (Go only, unused by the server; hash-table tokens - the decoder rebuilds the compressor's table while it decodes):
+  `C10_go_roundtrip_level1` - `Compress(x,1)` never panics and both decoders give x back, for ALL inputs (Lemmas/Qlz1*).
+  Partial: the C code is compared, not modelled.
 -/
 import GoBeans.Lemmas.Store
 import GoBeans.Lemmas.Qlz
 import GoBeans.Lemmas.QlzTotal3
+import GoBeans.Lemmas.Qlz1Total
 open Store Spec StoreLemmas
 
 /-- forget the sizes (the only trace of the compression decision) -/
@@ -81,6 +83,17 @@ example : Gen.TRY_COMPRESS_SIZE = 10240 ∧ Gen.COMPRESS_RATIO_LIMIT_num = 7 ∧
 theorem C10_go_roundtrip_level3 (x : Qlz.Buf) (hx : x.size ≠ 0) (hsz : x.size + 400 < 2 ^ 32) :
     ∃ c, Qlz.compress x 3 = some c ∧ Qlz.decompress c = .ok x :=
   QlzRT.roundtrip3 x hx hsz
+
+/-- level 1 (hash-table tokens): compression never panics, `Decompress` and `DecompressSafe` give the original back, for every
+    non-empty input below 4 GiB -/
+theorem C10_go_roundtrip_level1 (x : Qlz.Buf) (hx : x.size ≠ 0) (hsz : x.size + 400 < 2 ^ 32) :
+    ∃ c, Qlz.compress x 1 = some c ∧ Qlz.decompress c = .ok x ∧ Qlz.decompressSafe c = .ok x :=
+  QlzRT.roundtrip1_safe x hx hsz
+
+/-- the header a level-1 stream carries states its own length and the length of the original -/
+theorem C10_go_header_level1 {x c : Qlz.Buf} (hx : x.size ≠ 0) (hsz : x.size + 400 < 2 ^ 32) (h : Qlz.compress x 1 = some c) :
+    Qlz.sizeCompressed c = some c.size ∧ Qlz.sizeDecompressed c = some x.size :=
+  QlzRT.compress1_header hx hsz h
 
 theorem C10_go_roundtrip_safe_entry {x c : Qlz.Buf} (hx : x.size ≠ 0) (hsz : x.size + 400 < 2 ^ 32)
     (h : Qlz.compress x 3 = some c) : Qlz.decompress c = .ok x ∧ Qlz.decompressSafe c = .ok x :=
